@@ -672,6 +672,22 @@ func (vc *VC) iadd(a, b string) string {
 	}
 	return "(+ " + a + " " + b + ")"
 }
+// eidx: absolute index of element i of a slice with offset off. In int mode it is written with the uninterpreted
+// function gidx (axiom: gidx(a,b) = a+b) instead of `(+ off i)`: arithmetic is interpreted and normalised by the
+// solvers, so a slice element inside a quantifier body gave no usable e-matching pattern and facts like
+// `forall i :: P(s[i])` about a slice read from the heap were instantiated only by luck (model-based instantiation).
+// `(gidx off i)` is matched syntactically, modulo the equalities known about off. Used uniformly (also for a literal
+// offset 0) so that program terms and specification terms have the same shape.
+func (vc *VC) eidx(off, i string) string {
+	if vc.mode == ModeBV {
+		return vc.iadd(off, i)
+	}
+	if _, ok := vc.decls["gidx"]; !ok {
+		vc.declare("gidx", "(declare-fun gidx (Int Int) Int)")
+		vc.axiom("(forall ((a Int) (b Int)) (! (= (gidx a b) (+ a b)) :pattern ((gidx a b))))")
+	}
+	return "(gidx " + off + " " + i + ")"
+}
 func (vc *VC) isub(a, b string) string {
 	if vc.mode == ModeBV {
 		return "(bvsub " + a + " " + b + ")"
